@@ -26,15 +26,17 @@
      ok_C05_sound        every trace the model accepts satisfies the trace monitor that judges the
                          traces of the real code (no hang, prompt answers, rescue within 60 s).
 
-   NOT formalised (left on paper):
-     - the inference "a fair scheduler (and a running clock) produces a maximal trace", i.e.
-       eventually takes a step that stays enabled, which turns "enabled" (owner_can_finish, prompt,
-       rescue_within_60, no_deadlock) into "eventually taken" and makes maximal_trace_* applicable,
-       together with the assumption of the property that every invocation of the wrapped function
-       finishes or is cancelled (IEnd is an environment event); *)
+   run_terminates / fair_run_terminates / fair_prompt (CacheFair.v) then give termination and
+   promptness over infinite runs with the environment obligations and fairness as explicit hypotheses.
+
+   ASSUMED (explicit hypotheses of those theorems, not provable about the real system): the
+   environment obligations E1 (each invocation on a running loop ends or is cancelled) and E3
+   (life-cycle activity is finite), and that the OS scheduler and the clock are weakly fair
+   (= the run is infinite, never stuck, and its clock keeps moving).  fair_run_terminates uses the
+   standard-library axiom Classical_Prop.classic; every other theorem is axiom-free. *)
 From Coq Require Import List Arith NArith Bool.
 Import ListNotations.
-Require Import Aiuti.Cache Aiuti.CacheLemmas Aiuti.CacheInv Aiuti.CacheLive Aiuti.CacheMon Aiuti.CacheMon5 Aiuti.CacheMon5Spec Aiuti.CacheRetry Aiuti.CacheWork.
+Require Import Aiuti.Cache Aiuti.CacheLemmas Aiuti.CacheInv Aiuti.CacheLive Aiuti.CacheMon Aiuti.CacheMon5 Aiuti.CacheMon5Spec Aiuti.CacheRetry Aiuti.CacheWork Aiuti.CacheFair.
 
 (* own_ev p = Some e: the caller at pc p created event e in its Decide and has not yet run the
    `finally` block that sets it (pcs PUnlock (DComp e), PInvoke e, PComp _ e, PPublish _ e, PFinLock e _). *)
@@ -265,6 +267,74 @@ Theorem finite_work_then_done :
           \/ exists dl t s', waits_until cr dl /\ (now s < t)%N /\ (t <= dl)%N /\ step s (Adv t) = Some s').
 Proof. exact CacheWork.finite_work_then_done. Qed.
 Print Assumptions finite_work_then_done.
+
+(* TERMINATION OVER INFINITE RUNS (CacheFair.v).  A run is r : nat -> ev; accepted_run says every
+   finite prefix is accepted by the model (so the run never gets stuck and never ends: finite stuck
+   runs are covered by maximal_trace_* above); st nl tbl r n is the state after n events.
+   Environment obligations, as the property states them:
+     E1  every invocation that is active at some position (started, its loop never stopped) is no
+         longer active at a later position (it returned, raised, was cancelled, or its loop stopped);
+     E2  the clock diverges (for every T it eventually shows at least T);
+     E3  life-cycle activity is finite: from some position on there is no Cancel, no loop event and no
+         proxy cancelled by a shutdown, and at that position no loop is in its shutdown run.
+   THEOREM (constructive, no axiom): in every such run, every call that has started and whose loop is
+   running at every position is eventually answered (PDone o: a value, its own exception or its own
+   cancellation by outcome_trichotomy of C06).
+   Library fairness does not appear as a hypothesis: in this model the clock is urgent (Adv is only
+   accepted when no library step is pending), so "the run is infinite and its clock diverges" already
+   forces every pending library step to be taken; an unfair scheduler can only produce a finite stuck
+   run or a run whose clock stops, and both are excluded by the hypotheses. *)
+Theorem run_terminates :
+  forall nl tbl r, accepted_run nl tbl r -> fair_env nl tbl r ->
+  forall c n0 cr0, getc (st nl tbl r n0) c = Some cr0 -> cpc cr0 <> PStart ->
+    (forall n cr, getc (st nl tbl r n) c = Some cr -> lp (st nl tbl r n) (cloop cr) = LRun) ->
+    exists m cr o, getc (st nl tbl r m) c = Some cr /\ cpc cr = PDone o.
+Proof. exact CacheFair.run_terminates. Qed.
+Print Assumptions run_terminates.
+
+(* The same with the clock obligation weakened to WEAK FAIRNESS OF THE CLOCK (fair_env_weak: if from
+   some position on a strictly later Adv is enabled whenever the clock is below T, then the clock
+   reaches T) and with weak fairness of the library per caller as an explicit hypothesis
+   (lib_weak_fair: a caller that continuously has an enabled library step eventually takes one;
+   the proof does not need it, see above).  Divergence of the clock is DERIVED (bounded_work: only
+   finitely many library events fit between environment events, #IEnd <= #callers).
+   This theorem uses the standard-library axiom Classical_Prop.classic (excluded middle) — the only
+   axiom in this file, listed in ALLOWED_AXIOMS / TRUSTED of harness/props/C05.py — to negate "the
+   clock reaches T" and for "a bounded monotone sequence of naturals is eventually constant".
+   What remains ASSUMED about the real system: the environment obligations E1, E3, and that the OS
+   scheduler and the clock are (weakly) fair. *)
+Theorem fair_run_terminates :
+  forall nl tbl r, accepted_run nl tbl r -> fair_env_weak nl tbl r -> lib_weak_fair nl tbl r ->
+  forall c n0 cr0, getc (st nl tbl r n0) c = Some cr0 -> cpc cr0 <> PStart ->
+    (forall n cr, getc (st nl tbl r n) c = Some cr -> lp (st nl tbl r n) (cloop cr) = LRun) ->
+    exists m cr o, getc (st nl tbl r m) c = Some cr /\ cpc cr = PDone o.
+Proof. exact CacheFair.fair_run_terminates. Qed.
+Print Assumptions fair_run_terminates.
+
+(* PROMPTNESS AS AN EVENTUALITY BOUNDED IN VIRTUAL TIME (constructive).  In an accepted infinite run
+   whose clock diverges: a waiter whose wait is over at position n (same loop: its event is set;
+   cross loop: its proxy has answered, or the event is set and the computing loop is alive), whose
+   own loop is running at every position (and, for a cross-loop wait, whose computing loop stays
+   alive), resumes (Get) — or is answered Cancelled if it was cancelled meanwhile — at a position
+   m >= n at which the clock still shows the same tick: "as soon as the computation ends rather than
+   after the 60-second safety timeout". *)
+Theorem fair_prompt :
+  forall nl tbl r, accepted_run nl tbl r ->
+  (forall n T, exists m, n <= m /\ (T <= now (st nl tbl r m))%N) ->
+  forall n c cr, getc (st nl tbl r n) c = Some cr -> urgent (st nl tbl r n) cr ->
+    (forall m cr', getc (st nl tbl r m) c = Some cr' -> lp (st nl tbl r m) (cloop cr') = LRun) ->
+    (forall l e dl xd xs, cpc cr = PWaitX l e dl xd xs -> forall m, alive (lp (st nl tbl r m) l) = true) ->
+    exists m, n <= m /\ now (st nl tbl r m) = now (st nl tbl r n) /\ resume_ev c (r m) = true.
+Proof. exact CacheFair.fair_prompt. Qed.
+Print Assumptions fair_prompt.
+
+(* non-vacuity: the two-loop run of c05_trace (without its End) followed by Adv 1, Adv 2, ... for ever
+   is accepted at every prefix, satisfies fair_env(_weak) and lib_weak_fair, both callers start *)
+Example fair_hypotheses_satisfiable :
+  accepted_run 2 demo_tbl demo_run /\ fair_env_weak 2 demo_tbl demo_run /\ lib_weak_fair 2 demo_tbl demo_run
+  /\ (exists cr0, getc (st 2 demo_tbl demo_run 1) 0 = Some cr0 /\ cpc cr0 <> PStart)
+  /\ (exists cr1, getc (st 2 demo_tbl demo_run 8) 1 = Some cr1 /\ cpc cr1 <> PStart).
+Proof. exact demo_hypotheses. Qed.
 
 (* MONITOR SOUNDNESS.  The trace monitor ok_C05 that the check evaluates on every trace observed
    from the real code — the run ends with End 0 (no deadlock, no step bound = spinning, no hang);
